@@ -9,8 +9,8 @@
    What the fold remembers about its scope (record [mst]):
      m_byp / m_pre / m_cont   per action of the scope's bypass / pre / continuous group: has the plugin
                               returned OOk for it (flags only go from false to true);
-     m_bran / m_pran / m_cran the group RAN: one of its actions has been invoked;
-     m_other                  a plugin event of the scope that is not of its bypass group has been seen.
+     m_bran / m_pran / m_cran the group RAN: one of its actions has been invoked (EvStart);
+     m_other                  an invocation (EvStart) of the scope that is not of its bypass group has been seen.
    Derived:
      passed m      = the bypass group has actions and every one of them has returned OOk
                      ("every bypass check of the scope succeeded");
@@ -97,22 +97,36 @@ Definition gate_failed (m : mst) : bool :=
   (m_pran m && negb (all_true (m_pre m))) || (m_cran m && negb (all_true (m_cont m))).
 Definition ran_any (m : mst) : bool := m_bran m || m_other m.
 
-(* a plugin event of action a of the scope: which group ran, and (ok = the plugin returned OOk) its flag *)
-Definition note (sc : scope) (m : mst) (a : aref) (ok : bool) : mst :=
-  let flag l i := if ok then upd l i true else l in
+(* EvStart a, a of the scope: which group ran *)
+Definition note_start (sc : scope) (m : mst) (a : aref) : mst :=
   match own_check sc a with
-  | Some (GBypass, i) =>
-      {| m_byp := flag (m_byp m) i; m_pre := m_pre m; m_cont := m_cont m;
+  | Some (GBypass, _) =>
+      {| m_byp := m_byp m; m_pre := m_pre m; m_cont := m_cont m;
          m_bran := true; m_pran := m_pran m; m_cran := m_cran m; m_other := m_other m |}
-  | Some (GPre, i) =>
-      {| m_byp := m_byp m; m_pre := flag (m_pre m) i; m_cont := m_cont m;
+  | Some (GPre, _) =>
+      {| m_byp := m_byp m; m_pre := m_pre m; m_cont := m_cont m;
          m_bran := m_bran m; m_pran := true; m_cran := m_cran m; m_other := true |}
-  | Some (GCont, i) =>
-      {| m_byp := m_byp m; m_pre := m_pre m; m_cont := flag (m_cont m) i;
+  | Some (GCont, _) =>
+      {| m_byp := m_byp m; m_pre := m_pre m; m_cont := m_cont m;
          m_bran := m_bran m; m_pran := m_pran m; m_cran := true; m_other := true |}
   | _ =>
       {| m_byp := m_byp m; m_pre := m_pre m; m_cont := m_cont m;
          m_bran := m_bran m; m_pran := m_pran m; m_cran := m_cran m; m_other := true |}
+  end.
+
+(* EvEnd a OOk, a of the scope: the flag of the action (an End with another outcome changes nothing) *)
+Definition note_ok (sc : scope) (m : mst) (a : aref) : mst :=
+  match own_check sc a with
+  | Some (GBypass, i) =>
+      {| m_byp := upd (m_byp m) i true; m_pre := m_pre m; m_cont := m_cont m;
+         m_bran := m_bran m; m_pran := m_pran m; m_cran := m_cran m; m_other := m_other m |}
+  | Some (GPre, i) =>
+      {| m_byp := m_byp m; m_pre := upd (m_pre m) i true; m_cont := m_cont m;
+         m_bran := m_bran m; m_pran := m_pran m; m_cran := m_cran m; m_other := m_other m |}
+  | Some (GCont, i) =>
+      {| m_byp := m_byp m; m_pre := m_pre m; m_cont := upd (m_cont m) i true;
+         m_bran := m_bran m; m_pran := m_pran m; m_cran := m_cran m; m_other := m_other m |}
+  | _ => m
   end.
 
 (* ---- what the released plan must show: over any status reading f of the objects ---- *)
@@ -178,11 +192,12 @@ Definition mstep_d (sh : shape) (sc : scope) (m : mst) (e : event) : mst + nat :
       if negb (in_scope sc a) then inl m
       else if passed m then inr 1
       else if is_seq a && negb (gate_open m) then inr 2
-      else inl (note sc m a false)
+      else inl (note_start sc m a)
   | EvEnd a o =>
       if negb (in_scope sc a) then inl m
       else if passed m then inr 1
-      else let m' := note sc m a (outcome_ok o) in
+      else if negb (outcome_ok o) then inl m
+      else let m' := note_ok sc m a in
            if passed m' && m_other m' then inr 3 else inl m'
   | EvRelease fin =>
       match final_code sh (fin_st fin) sc m with 0 => inl m | c => inr c end
